@@ -51,7 +51,13 @@ def generate(src):
     RP = {'driver': 'callback'}
     def ob(st, name, goal): oblige(st, name, goal, replay=RP)
 
+    UNKNOWN = Bool('task_not_yet_prepared_by_this_receiver')          # tasks registered after the receiver was built are prepared lazily, on their first delivery
+    def prepared(st): return Or(Not(UNKNOWN), G(st).get('prepared_now', BoolVal(False)))
+    def ob_prepared(st, what):
+        ob(st, f"run_task/{what}: the per-task tables (signature, type hints, dependency graph) are read only after the task has been prepared - also on the FIRST delivery of a task registered late  [C08/C12]", prepared(st))
+    def h_prepare_task(ex, st, e, recv, args, kw, k, K): setG(st, prepared_now=BoolVal(True)); return k(st, None)
     def h_get_graph(ex, st, e, recv, args, kw, k, K):
+        ob_prepared(st, 'dependency_graphs.get')
         g = fresh('graph'); st.pc.append(If(has_graph, Val.is_ref(g), g == Val.none)); return k(st, g)
     validate_params = Bool('validate_params')
     def h_parse_params(ex, st, e, recv, args, kw, k, K):
@@ -144,7 +150,7 @@ def generate(src):
             t = fresh('timeout_label'); setG(st, timeout_label=t); return k(st, t)
         return k(st, If(st.heap.dhas[d.addr][kx], st.heap.dval[d.addr][kx], to_val(args[1]) if len(args) > 1 else Val.none))
     def h_opaque_get(name):
-        def h(ex, st, e, recv, args, kw, k, K): return k(st, fresh(name))
+        def h(ex, st, e, recv, args, kw, k, K): ob_prepared(st, {'sig': 'task_signatures.get', 'hints': 'task_hints.get'}.get(name, name)); return k(st, fresh(name))
         return h
     def h_close(ex, st, e, recv, args, kw, k, K):
         tup = args[0]
@@ -213,7 +219,8 @@ def generate(src):
             u = ast.unparse(e)
             m_ = re.match(r"^(\w+)\.__class__\.on_error (!=|==) TaskiqMiddleware\.on_error$", u)
             if m_ and G(st).get('__i') is not None: return k(st, PyBool(over(G(st)['__i']) if m_.group(2) == '!=' else Not(over(G(st)['__i']))))
-            if u == 'message.task_name not in self.known_tasks': return k(st, PyBool(fresh('unknown_task', BoolSort())))
+            if u == 'message.task_name not in self.known_tasks': return k(st, PyBool(And(UNKNOWN, Not(G(st).get('prepared_now', BoolVal(False))))))
+            if u == 'message.task_name in self.known_tasks': return k(st, PyBool(Not(And(UNKNOWN, Not(G(st).get('prepared_now', BoolVal(False)))))))
             if len(e.ops) == 1 and isinstance(e.ops[0], (ast.In, ast.NotIn)) and ast.unparse(e.comparators[0]).startswith('self.'):
                 approx(st, "membership test " + u + " in receiver-held bookkeeping this unit has no contract for (unconstrained boolean)")
                 return k(st, PyBool(fresh('membership_in_' + ast.unparse(e.comparators[0]).replace('.', '_'), BoolSort())))      # membership in receiver-held bookkeeping: unconstrained
@@ -238,7 +245,7 @@ def generate(src):
     def K_(sort, val): return K(sort, val)
     import z3 as _z3
     K = _z3.K
-    handlers = {'logger.*': noop, 'asyncio.get_running_loop': opaque('loop'), 'self._prepare_task': noop, 'self.task_signatures.get': h_opaque_get('sig'), 'self.task_hints.get': h_opaque_get('hints'),
+    handlers = {'logger.*': noop, 'asyncio.get_running_loop': opaque('loop'), 'self._prepare_task': h_prepare_task, 'self.task_signatures.get': h_opaque_get('sig'), 'self.task_hints.get': h_opaque_get('hints'),
                 'self.dependency_graphs.get': h_get_graph, 'parse_params': h_parse_params, 'Context': h_Context, 'dict.update': h_dict_update, 'dict.copy': h_dict_copy, 'dict': h_dict_copy,
                 GRAPH + '.async_ctx': h_async_ctx, 'time': opaque('time'), DEPCTX + '.resolve_kwargs': h_resolve_kwargs, 'asyncio.iscoroutinefunction': h_iscoro,
                 'loop.run_in_executor': h_run_in_executor, 'dict.get': h_dict_get, 'float': h_float, 'asyncio.wait_for': h_wait_for, 'type': opaque('type'), DEPCTX + '.close': h_close,
@@ -247,7 +254,7 @@ def generate(src):
     st = State(); h = st.heap
     st.env = {'self': PyObj(self_a, 'receiver'), 'target': fresh('target'), 'message': PyObj(msg_a, 'message')}
     st.pc += [Distinct(self_a, msg_a, shared_ctx_a, margs_a, mkw_a, mlabels_a, broker_a), h.next == next0, NMW >= 0] + [And(x < next0, x >= 0) for x in (self_a, msg_a, shared_ctx_a, margs_a, mkw_a, mlabels_a, broker_a)]
-    st.ghost = dict(__i=None, invokes=IntVal(0), awaited_invoke=IntVal(0), closes=IntVal(0), exec_finished=BoolVal(False), resolve_failed=BoolVal(False), result_built=BoolVal(False), found_exc=Val.none,
+    st.ghost = dict(__i=None, prepared_now=BoolVal(False), invokes=IntVal(0), awaited_invoke=IntVal(0), closes=IntVal(0), exec_finished=BoolVal(False), resolve_failed=BoolVal(False), result_built=BoolVal(False), found_exc=Val.none,
                     dep_ctx_created=BoolVal(False), timeout_enforced=BoolVal(False), hook_failed=BoolVal(False), close_failed=BoolVal(False), parse_failed=BoolVal(False),
                     fired=K(IntSort(), False), outcome_exc=Val.none, outcome_val=Val.none, timeout_label=Val.none, kwargs_addr=IntVal(-2), kwargs_updated_with=IntVal(-1),
                     cache_addr=IntVal(-1), cache_dval=h.dval[-1], cache_dhas=h.dhas[-1], result_addr=IntVal(-1), __witness=W)
